@@ -7,6 +7,8 @@ documented context_class extension point, recomputing the size of the locals of 
 
 from __future__ import annotations
 
+import itertools
+
 import sys
 from typing import Any
 
@@ -157,7 +159,8 @@ def judge(ctx: core.Ctx, case: dict[str, Any]) -> None:
     S = h1["max_size"]
     ctx.count("assign_postconditions", h1["assigns"])
     multibyte = len(base.value) != U
-    for L in sorted({0, 1, max(U - 1, 0), U, U + 1, 2 * U}):
+    # (small hand-built nestings: every limit value; otherwise the boundary values)
+    for L in (range(0, U + 2) if case.get("all_limits") and U <= 400 else sorted({0, 1, max(U - 1, 0), U, U + 1, 2 * U})):
         for mode in ("strict", "lax"):
             o, h = run(case, mode, {"output_stream_limit": L}, data)
             ctx.count("write_postconditions", h["writes"])
@@ -296,9 +299,31 @@ HAND = [
 ]
 
 
+def nested_buffer_cases():
+    """Every nesting (depth 1-3) of the tags that render into an intermediate buffer before writing to the one above: what a buffer two levels
+    down may still take is what is left in *every* buffer above it."""
+    wrap = {
+        "ifchanged": lambda b, i: "{% ifchanged %}" + b + "{% endifchanged %}",
+        "capture": lambda b, i: "{% capture c" + str(i) + " %}" + b + "{% endcapture %}{{ c" + str(i) + " }}",
+        "loop-ifchanged": lambda b, i: "{% for i" + str(i) + " in (1..2) %}{% ifchanged %}" + b + "{{ i" + str(i) + " }}{% endifchanged %}{% endfor %}",
+    }
+    for depth in (1, 2, 3):
+        for combo in itertools.product(sorted(wrap), repeat=depth):
+            for lead, core_text, tail in (("", "{{ s }}", "z"), ("{{ s }}", "é{{ s }}", "z"), ("ab", "{{ s }}{{ s }}", "z"), ("ééé", "{{ s }}{{ s }}", ""), ("→", "{{ s }}", "")):
+                body = core_text
+                for i, k in enumerate(reversed(combo)):
+                    # (text before the inner block inside the outer one makes the two blocks' texts differ; with an empty tail the inner
+                    # block's flush is the last thing the outer buffer sees)
+                    body = (lead[:1] if i else "") + wrap[k](body, i) + tail
+                yield {"source": lead + body, "partials": {}, "all_limits": True}
+
+
 def cases(ctx: core.Ctx):
     for h in HAND:
         yield dict(h, data=V.enc({"s": "日本語😀"}))
+    for gi, c in enumerate(nested_buffer_cases()):
+        if gi % ctx.nshards == ctx.shard:
+            yield dict(c, data=V.enc({"s": "日本😀"}))
     rng = ctx.rng("cases")
     for i in range(ctx.budget(1500, 300_000)):
         yield gen_chain_case(rng) if i % 4 == 1 else gen_case(rng)
